@@ -135,6 +135,8 @@ UNITS_INFO = [("volume_reader", "nibabel_image_to_info", "vs", 1e6),
        "memory-mapped vs full-load equality"],
       ["NumPy promotion / safe-cast / iinfo tables embedded in rules_dtype"])
 def c01(repo, col):
+    M4.round_clip_in_work_dtype(repo, col)
+    M4.minishard_final_before_use(repo, col)
     M3.driver_chain(repo, col, shorts=["volume_reader"])
     M3.new_dataset_stores_info(repo, col)
     M3.payload_reaches_storage(repo, col)
@@ -248,6 +250,7 @@ def c03(repo, col):
        "the reorder buffer's run-time state)", "gzip payload validity"],
       ["sharded v1 format as published in the Neuroglancer repository"])
 def c04(repo, col):
+    M4.minishard_final_before_use(repo, col)
     M4.lowercase_hex_names(repo, col)
     M3.payload_reaches_storage(repo, col, only=["sharded_file_accessor", "sharded_base"])
     SP.sharded_layout(repo, col)
@@ -282,7 +285,9 @@ def c04(repo, col):
        "of a stateful buffer)", "content of data written by the on-disk "
        "byte array"])
 def c05(repo, col):
+    M4.minishard_final_before_use(repo, col)
     M3.seek_before_read(repo, col)
+    M4.legacy_seek_rebased(repo, col)
     M3.payload_reaches_storage(repo, col, only=["sharded_file_accessor", "sharded_base"])
     M3.dirty_cleared_after_write(repo, col)
     sh = ["sharded_base", "sharded_file_accessor", "sharded_http_accessor"]
@@ -320,6 +325,7 @@ def c05(repo, col):
       ["the downscaler's values", "that the scale generator only emits "
        "compatible scale pairs"])
 def c06(repo, col):
+    M4.pad_after_promotion(repo, col)
     M3.driver_chain(repo, col, shorts=["dyadic_pyramid", "scripts.compute_scales"])
     M3.downscaler_dispatch(repo, col)
     T.tiling_site(repo, col, "dyadic_pyramid", "compute_dyadic_downscaling")
@@ -356,6 +362,8 @@ def c06(repo, col):
       ["NumPy promotion tables embedded in rules_dtype",
        "np.unique returns sorted labels; np.argmax returns the first maximum"])
 def c07(repo, col):
+    M4.round_clip_in_work_dtype(repo, col)
+    M4.pad_after_promotion(repo, col)
     M3.downscaler_dispatch(repo, col)
     D.averaging_accumulator(repo, col)
     # the averaged float64 values go back through the converter
@@ -420,6 +428,7 @@ def c09(repo, col):
        "with trusted shape are total",
        "x[:n] of an array with at least n elements has exactly n elements"])
 def c10(repo, col):
+    M4.jpeg_pixel_type_checked(repo, col)
     M3.decoder_fills_output(repo, col)
     M3.encoder_dispatch(repo, col)
     M3.pil_truncation_switch(repo, col)
@@ -448,6 +457,7 @@ def c10(repo, col):
        "half-to-even)", "strided inputs"],
       ["NumPy promotion / safe-cast / iinfo tables embedded in rules_dtype"])
 def c11(repo, col):
+    M4.round_clip_in_work_dtype(repo, col)
     D.converter_lattice(repo, col)
     S.inplace_ownership(repo, col)
     S.copy_keyword_contract(repo, col)
@@ -500,6 +510,8 @@ def c12(repo, col):
        "flush chain"],
       ["decoded equality of source and destination", "remote sources"])
 def c13(repo, col):
+    M4.round_clip_in_work_dtype(repo, col)
+    M4.legacy_seek_rebased(repo, col)
     M4.convert_all_chunk_sizes(repo, col)
     M3.driver_chain(repo, col, shorts=["scripts.convert_chunks"])
     M3.new_dataset_stores_info(repo, col)
@@ -543,8 +555,10 @@ def c13(repo, col):
       ["byte equality with local reads", "server behaviours beyond status "
        "and length"])
 def c14(repo, col):
+    M4.nonempty_range_before_read(repo, col)
     M4.lowercase_hex_names(repo, col)
     M3.seek_before_read(repo, col)
+    M4.legacy_seek_rebased(repo, col)
     M3.probe_statuses(repo, col)
     M3.legacy_suffix_polarity(repo, col)
     M2.shard_protocol_guards(repo, col)
@@ -727,6 +741,7 @@ def c19(repo, col):
        "no state shared between calls"],
       ["readable_count's digit / width promise (arithmetic over format())"])
 def c20(repo, col):
+    M4.readable_count_format_types(repo, col)
     M3.driver_chain(repo, col, shorts=["scripts.scale_stats"])
     M3.stats_bytes_include_channels(repo, col)
     T.count_formula(repo, col)
